@@ -90,6 +90,9 @@ state_key (void)
 
 static char cj[900];
 static long transitions;
+static char custom_name[96];
+static void starts_custom_name (const char *n) { snprintf (custom_name, sizeof custom_name, "%s", n); }
+#define START_NAME(si) ((si) >= 0 ? starts[si].name : custom_name)
 
 /* apply one operation; check = evaluate the protocol model.  Returns 1 on violation. */
 static int
@@ -104,7 +107,7 @@ apply (int op, int check, const char *trace, int si)
   long badfree_before = vh_bad_free;
   char *r = 0;
   if (check)
-    snprintf (cj, sizeof cj, "{\"start\":\"%s\",\"history\":\"%s\",\"last\":\"%s\",\"replay\":\"%d:%s\"", starts[si].name, trace, opname[op], si, trace);
+    snprintf (cj, sizeof cj, "{\"start\":\"%s\",\"history\":\"%s\",\"last\":\"%s\",\"replay\":\"%d:%s\"", START_NAME (si), trace, opname[op], si, trace);
   if (op == OP_FREE_RESET)
     {
       vh_seam_armed = 1;
@@ -363,6 +366,79 @@ bfs (int si)
   vh_sample ("{\"start\":\"%s\",\"states\":%d,\"depth\":%d,\"closure\":%s,\"alphabet\":%d}", starts[si].name, ns, maxd, closed ? "true" : "false", NOPS);
 }
 
+/* ---- conformance with the TLA+ model (tla/CryptRa.tla): replay every edge of TLC's state graph ------------- */
+static const char *
+abs_blk (void)
+{
+  struct vh_blk *b = data ? vh_ledger_find (data) : 0;
+  if (!data)
+    return "null";
+  if (!b)
+    return "dangling";
+  return b->n >= (size_t) OBJ ? "adequate" : "small";
+}
+
+static const char *
+abs_rec (void)
+{
+  return size < 0 ? "neg" : size == 0 ? "zero" : size < OBJ ? "small" : "ok";
+}
+
+static void
+replay_edges (const char *file)
+{
+  FILE *f = fopen (file, "r");
+  if (!f)
+    vh_internal ("cannot open edge file %s", file);
+  char sb[16], sr[16], act[24], db[16], dr[16];
+  int sl, dl, n = 0;
+  static struct start custom = { "model-state", 0, 0 };
+  while (fscanf (f, "%15s %15s %d %23s %15s %15s %d", sb, sr, &sl, act, db, dr, &dl) == 7)
+    {
+      /* concretise the source state (representatives of each class; a positive recorded size never exceeds the block) */
+      int real = !strcmp (sb, "null") ? 0 : !strcmp (sb, "small") ? 100 : OBJ;
+      int recd = !strcmp (sr, "neg") ? -5 : !strcmp (sr, "zero") ? 0 : !strcmp (sr, "small") ? 100 : (real == 0 ? 40000 : OBJ);
+      vh_ledger_reset ();
+      data = 0;
+      if (real)
+        {
+          vh_seam_armed = 1;
+          data = malloc ((size_t) real);
+          vh_seam_armed = 0;
+          memset (data, 0x6B, (size_t) real);
+        }
+      size = recd;
+      if (strcmp (abs_blk (), sb) || strcmp (abs_rec (), sr) || vh_ledger_live (0) != sl)
+        vh_internal ("cannot concretise model state (%s,%s,%d)", sb, sr, sl);
+      int op = !strcmp (act, "ra_ok") ? OP_OK_MD5 : !strcmp (act, "ra_bad") ? OP_FAIL_BADCHAR : !strcmp (act, "ra_allocfail") ? OP_OK_MD5_ALLOCFAIL : !strcmp (act, "caller_free") ? OP_FREE_RESET : -1;
+      if (op < 0)
+        vh_internal ("unknown model action %s", act);
+      char trace[80];
+      snprintf (trace, sizeof trace, "model:(%s,%s,%d)-%s", sb, sr, sl, act);
+      starts_custom_name (trace);
+      int bad = apply (op, 1, trace, -1);
+      vh_stat ("model_edges_replayed", 1);
+      vh_stat ("transitions", 1);
+      n++;
+      if (!bad && (strcmp (abs_blk (), db) || strcmp (abs_rec (), dr) || vh_ledger_live (0) != dl))
+        {
+          vh_viol ("implementation-leaves-the-model/crypt_ra", "{\"model_edge\":\"(%s,%s,live=%d) -%s-> (%s,%s,live=%d)\",\"implementation_reached\":\"(%s,%s,live=%d)\",\"replay\":\"edges\"}", sb, sr, sl,
+                   act, db, dr, dl, abs_blk (), abs_rec (), vh_ledger_live (0));
+        }
+      if (data)
+        {
+          vh_seam_armed = 1;
+          free (data);
+          vh_seam_armed = 0;
+          data = 0;
+        }
+    }
+  fclose (f);
+  (void) custom;
+  vh_stat ("states", 1);
+  vh_sample ("{\"tla_model\":\"tla/CryptRa.tla\",\"edges_replayed_against_crypt_ra\":%d}", n);
+}
+
 int
 main (int argc, char **argv)
 {
@@ -372,6 +448,13 @@ main (int argc, char **argv)
   strcpy (expect[1], crypt_rn ("pw", vh_cheap[M_DES][0], d, sizeof *d));
   strcpy (expect[2], crypt_rn ("pw", vh_cheap[M_SHA256][0], d, sizeof *d));
   memset (longphrase, 'x', 600);
+  for (int i = 1; i + 1 < argc; i++)
+    if (!strcmp (argv[i], "--edges"))
+      {
+        replay_edges (argv[i + 1]);
+        vh_done ();
+        return 0;
+      }
   if (vh_replay && *vh_replay)
     {
       int si;
